@@ -182,7 +182,7 @@ impl Session {
 }
 
 pub fn dispatch(st: &mut LspState, op: &str, f: &[String]) -> Option<String> {
-    if !op.starts_with("l.") && !op.starts_with("fs.") {
+    if !op.starts_with("l.") && !op.starts_with("fs.") && !op.starts_with("srv.") {
         return None;
     }
     if st.s.is_none() && matches!(op, "l.now" | "l.cache" | "l.tags" | "l.init" | "l.open" | "l.change" | "l.close" | "l.action" | "l.reply" | "l.settle" | "l.dump") {
@@ -376,6 +376,51 @@ pub fn dispatch(st: &mut LspState, op: &str, f: &[String]) -> Option<String> {
         }
         "l.dump" => crate::ops_cache::dump(&st.s.as_ref().unwrap()._dir.as_ref().unwrap().path().join("versions.db")),
         "l.stop" => { st.s = None; "ok".into() }
+        // srv.probe <xdg_data_home> : start the real server process (run_server over stdio) under that environment, send
+        // `initialize` and `shutdown`, report whether it answered: "answered <n>" | "exited rc=<code> <stderr>" | "silent"
+        "srv.probe" => {
+            use std::io::{Read, Write};
+            let exe = std::env::current_exe().unwrap();
+            let mut child = std::process::Command::new(exe)
+                .arg("runserver")
+                .env("XDG_DATA_HOME", &f[0])
+                .env("GITHUB_API_BASE_URL", "http://127.0.0.1:9")
+                .stdin(std::process::Stdio::piped())
+                .stdout(std::process::Stdio::piped())
+                .stderr(std::process::Stdio::piped())
+                .spawn()
+                .expect("spawn runserver");
+            let msg = |body: &str| format!("Content-Length: {}\r\n\r\n{}", body.len(), body);
+            let init = r#"{"jsonrpc":"2.0","id":1,"method":"initialize","params":{"capabilities":{}}}"#;
+            let shutdown = r#"{"jsonrpc":"2.0","id":2,"method":"shutdown"}"#;
+            let exit = r#"{"jsonrpc":"2.0","method":"exit"}"#;
+            {
+                let stdin = child.stdin.as_mut().unwrap();
+                let _ = stdin.write_all(msg(init).as_bytes());
+                let _ = stdin.write_all(msg(shutdown).as_bytes());
+                let _ = stdin.write_all(msg(exit).as_bytes());
+                let _ = stdin.flush();
+            }
+            drop(child.stdin.take());
+            let t0 = std::time::Instant::now();
+            let status = loop {
+                if let Ok(Some(st)) = child.try_wait() { break Some(st); }
+                if t0.elapsed().as_secs() > 20 { let _ = child.kill(); break None; }
+                std::thread::sleep(std::time::Duration::from_millis(20));
+            };
+            let mut out = String::new();
+            let _ = child.stdout.take().unwrap().read_to_string(&mut out);
+            let mut err = String::new();
+            let _ = child.stderr.take().unwrap().read_to_string(&mut err);
+            let answers = out.matches("\"id\":1").count() + out.matches("\"id\":2").count();
+            if answers >= 2 { format!("answered {answers}") }
+            else {
+                match status {
+                    Some(st) => format!("exited rc={} answers={} {}", st.code().unwrap_or(-1), answers, hex(&err.lines().last().unwrap_or("").chars().take(160).collect::<String>())),
+                    None => format!("silent answers={answers}"),
+                }
+            }
+        }
         "l.dumpfile" => crate::ops_cache::dump(std::path::Path::new(&f[0])),
         // fs.mkdir <path> | fs.mkfile <path> <content> | fs.rm <path>
         "fs.mkdir" => match std::fs::create_dir_all(&f[0]) { Ok(_) => "ok".into(), Err(e) => format!("E:{:?}", e.kind()) },
